@@ -89,27 +89,38 @@ example : BoundsInv ⟨4, 3, 2⟩ ex ∧ stepValid ex 0 0 = true ∧
     validDraw ex 0 0 ⟨[⟨2, 4, 0, 3, 0, 2⟩, ⟨0, 4, 2, 3, 0, 2⟩], [true, true]⟩ := by decide +kernel
 /-- … and that draw is exactly what the transliterated `_update_ems` computes -/
 example : WF ex ∧ updateEms ex 0 0 = ⟨[⟨2, 4, 0, 3, 0, 2⟩, ⟨0, 4, 2, 3, 0, 2⟩], [true, true]⟩ := by decide +kernel
+/-! NOTE on what the membership theorems of this section do and do not cover (audits r4 #6, r5 #6, r6 #8): the dtype tag of every leaf
+is written by `toNValue` (by construction) — a wrong dtype in the real code cannot falsify `….valid (toNValue …) = true`; dtypes and
+field order of the real observations are compared by the `bin_pack.spec` / `bin_pack.state` ops (`nvalue`: field order, shape, dtype, data) and
+`jax.eval_shape` in the sweeps.  Shapes are READ OFF the value by `toNValue` (widths off the first row): see `…_obs_valid_only`. -/
+
 /-! #### (wave 4) membership in the DECLARED specs: structure, shapes, dtypes and bounds -/
 open Sp PzS PkS
 
 /-- the model's `obsSpec` / `actionSpec` / reward and discount specs ARE the specs generated from the real spec objects
 (Gen/Specs.lean) for the catalogue configurations `binpack-csv` (`BinPack(CSVGenerator(…, max_num_ems=15), obs_num_ems=8)`,
-2 items; every leaf) and `binpack-toy` (`BinPack(ToyGenerator(), obs_num_ems=10)`, 20 items; every leaf except
-`action_mask`, whose 10 × 20 entries are too many for the generated table — that leaf, and the raw (`int32`, `[0, max_dim]`)
-form of the specs, are compared at run time by the `bin_pack.spec` op for every adapter configuration): paths
+2 items; every leaf) and `binpack-toy` (`BinPack(ToyGenerator(), obs_num_ems=10)`, 20 items; every leaf — the raw (`int32`,
+`[0, max_dim]`) form of the specs is compared at run time by the `bin_pack.spec` op for every adapter configuration): paths
 `ems.{x1,x2,y1,y2,z1,z2}`, `ems_mask`, `items.{x_len,y_len,z_len}`, `items_mask`, `items_placed`, `action_mask` in this order;
-shapes `(obs_num_ems,)` / `(max_num_items,)` / `(obs_num_ems, max_num_items)`; float32 in `[0, 1]`, bool -/
+shapes `(obs_num_ems,)` / `(max_num_items,)` / `(obs_num_ems, max_num_items)`; float32 in `[0, 1]`, bool.
+The generated table now holds every leaf whose BOUNDS are small, so the `binpack-toy` conjunct is about the WHOLE `obsSpec` (its
+`action_mask` leaf (10, 20) included; it used to be `.dropLast`).  SPEC-ONLY third configuration
+`BinPack(RandomGenerator(max_num_items=6, max_num_ems=12), obs_num_ems=5)`: 6 items, 12 EMS kept, 5 EMS observed — pairwise distinct -/
 theorem binpack_obsSpec_generated :
     prefixed "observation_spec." (obsSpec ⟨8, true, true⟩ 2 ⟨5870, 2330, 2200⟩) = declared "binpack-csv" "observation_spec." ∧
     [("action_spec", actionSpec ⟨8, true, true⟩ 2)] = declared "binpack-csv" "action_spec" ∧
     [("reward_spec", rewardSpec)] = declared "binpack-csv" "reward_spec" ∧
     [("discount_spec", discountSpec)] = declared "binpack-csv" "discount_spec" ∧
-    (prefixed "observation_spec." (obsSpec ⟨10, true, true⟩ 20 ⟨5870, 2330, 2200⟩)).dropLast =
-      declared "binpack-toy" "observation_spec." ∧
+    prefixed "observation_spec." (obsSpec ⟨10, true, true⟩ 20 ⟨5870, 2330, 2200⟩) = declared "binpack-toy" "observation_spec." ∧
     [("action_spec", actionSpec ⟨10, true, true⟩ 20)] = declared "binpack-toy" "action_spec" ∧
     [("reward_spec", rewardSpec)] = declared "binpack-toy" "reward_spec" ∧
-    [("discount_spec", discountSpec)] = declared "binpack-toy" "discount_spec" := by
-  refine ⟨by decide, by decide, by decide, by decide, by decide, by decide, by decide, by decide⟩
+    [("discount_spec", discountSpec)] = declared "binpack-toy" "discount_spec" ∧
+    prefixed "observation_spec." (obsSpec ⟨5, true, true⟩ 6 ⟨5870, 2330, 2200⟩) = declared "spec-only-binpack-random-6x12x5" "observation_spec." ∧
+    [("action_spec", actionSpec ⟨5, true, true⟩ 6)] = declared "spec-only-binpack-random-6x12x5" "action_spec" ∧
+    [("reward_spec", rewardSpec)] = declared "spec-only-binpack-random-6x12x5" "reward_spec" ∧
+    [("discount_spec", discountSpec)] = declared "spec-only-binpack-random-6x12x5" "discount_spec" := by
+  refine ⟨by decide +kernel, by decide +kernel, by decide +kernel, by decide +kernel, by decide +kernel, by decide +kernel,
+    by decide +kernel, by decide +kernel, by decide +kernel, by decide +kernel, by decide +kernel, by decide +kernel⟩
 
 /-- the invariant behind the membership theorems — `BoundsInv dm` (container `[0,cx]×[0,cy]×[0,cz]`, every EMS slot inside
 it, no item larger than it), consistent array lengths, `n = max_num_items` items, a buffer of at least `obs_num_ems` EMS
@@ -186,7 +197,10 @@ example : DrawsOK ⟨2, false, true⟩ id ex [(0, 0, ⟨[⟨2, 4, 0, 3, 0, 2⟩,
 
 /-- what membership means (so the theorems above are not hollow): `validate` accepts an observation ONLY IF it has
 `obs_num_ems` EMS rows and `n` item rows, every coordinate / side length lies in `[0, 1]` (normalised) resp. `[0, max_dim]`
-(raw), the masks have the declared lengths and the action mask is `obs_num_ems × n` -/
+(raw), the masks have the declared lengths and the action mask is `obs_num_ems × n`  CAVEAT (audits r4 #7, r5 #5, r6 #5): for every field that is a nested list, `toNValue` reads the widths off the FIRST row of the
+nested list, so the shape conjuncts here mean "row count, length of the first row, total number of cells" — a ragged value with the right total can be a
+member, and nothing is concluded about the later rows.  Rectangularity is part of the invariant (`SpecInv` / `Shaped` / `Rect…`) under which the
+forward theorems (`…_reset_obs_valid`, `…_step_obs_valid`, `…_along`) are proved, i.e. it holds of every EMITTED observation. -/
 theorem binpack_obs_valid_only (cfg : Cfg) (n : Nat) (dm : Dims) (o : Obs)
     (h : (obsSpec cfg n dm).valid (toNValue cfg.normalize o) = true) :
     o.ems.length = cfg.obsNum ∧
